@@ -26,6 +26,8 @@ def _out_of_scope(inst):
 
 
 def _class(inst, d):
+    if inst['qualifier'] and inst['name']['style'] == 'plain' and ('#' in inst['name']['body'] or '$' in inst['name']['body']):
+        return 'qualified-name-with-hash-or-dollar'
     if inst['context'] == 'insert_target_cols' and inst['alias'] and not inst['as']:
         return 'insert-target-implicit-alias-before-column-list'
     ctx = inst['context'].split(':')[0]
